@@ -131,6 +131,9 @@ type outItem struct {
 	judge bool // late accept already judged
 	opTr  *opTrace
 	yield *callRec // a YIELD for this call
+	// metaBlk: while this item was pending, a quiescent dump showed the meta-session
+	// handler in dealer.yield's retry and a handler blocked sending to the meta peer
+	metaBlk bool
 }
 
 type callRec struct {
